@@ -24,13 +24,38 @@ type Cfg struct {
 	DirOn                       bool
 	DirTTL                      time.Duration
 	DirCap, DirMaxSize, MaxHand int
+	Squash                      string // "" = none; not part of Srv.cfg: the Coq side is given the EFFECTIVE credentials
 }
 
 func (c Cfg) Opts() absnfs.ExportOptions {
 	return absnfs.ExportOptions{ReadOnly: c.RO, MaxFileSize: c.MaxFile, TransferSize: c.Tsize,
 		AttrCacheTimeout: c.AttrTTL, AttrCacheSize: c.AttrCap, CacheNegativeLookups: c.NegOn, NegativeCacheTimeout: c.NegTTL,
 		EnableDirCache: c.DirOn, DirCacheTimeout: c.DirTTL, DirCacheMaxEntries: c.DirCap, DirCacheMaxDirSize: c.DirMaxSize,
-		Squash: "none"}
+		Squash: map[bool]string{true: "none", false: c.Squash}[c.Squash == ""]}
+}
+
+// Effective returns the identity the server must act under for raw credential c (squashing as configured).
+func (c Cfg) Effective(raw nfsx.Cred) nfsx.Cred {
+	e := nfsx.Cred{Uid: raw.Uid, Gid: raw.Gid, Aux: append([]uint32(nil), raw.Aux...)}
+	switch c.Squash {
+	case "root":
+		if raw.Uid == 0 {
+			e.Uid, e.Gid = 65534, 65534
+		} else if raw.Gid == 0 {
+			e.Gid = 65534
+		}
+		for i, g := range e.Aux {
+			if g == 0 {
+				e.Aux[i] = 65534
+			}
+		}
+	case "all":
+		e.Uid, e.Gid = 65534, 65534
+		for i := range e.Aux {
+			e.Aux[i] = 65534
+		}
+	}
+	return e
 }
 func (c Cfg) Coq() string {
 	return fmt.Sprintf("{| tsize := %d; ro := %s; maxfile := %d; attr_ttl := %d; attr_cap := %d; neg_on := %s; neg_ttl := %d; dir_on := %s; dir_ttl := %d; dir_cap := %d; dir_maxsize := %d |}",
@@ -39,7 +64,7 @@ func (c Cfg) Coq() string {
 }
 func (c Cfg) Text() string {
 	return fmt.Sprintf("tsize=%d ro=%v maxfile=%d attr=%v/%d neg=%v/%v dir=%v/%v/%d/%d maxh=%d", c.Tsize, c.RO, c.MaxFile, c.AttrTTL, c.AttrCap,
-		c.NegOn, c.NegTTL, c.DirOn, c.DirTTL, c.DirCap, c.DirMaxSize, c.MaxHand)
+		c.NegOn, c.NegTTL, c.DirOn, c.DirTTL, c.DirCap, c.DirMaxSize, c.MaxHand) + map[bool]string{true: "", false: " squash=" + c.Squash}[c.Squash == ""]
 }
 
 func genCfg(r *Rand) Cfg {
@@ -117,11 +142,15 @@ type Session struct {
 
 // NewSession builds a server over a fresh specfs; populate (optional) fills the backend directly
 // (not through the server) before the first request.
+// LinkSizeZeroNext makes the next NewSession use a backend whose lstat reports size 0 for symbolic links.
+var LinkSizeZeroNext bool
+
 func NewSession(c Cfg, populate func(fs *specfs.FS)) *Session {
 	env, err := nfsx.NewEnv(c.Opts(), c.MaxHand)
 	if err != nil {
 		panic(err)
 	}
+	env.FS.LinkSizeZero, LinkSizeZeroNext = LinkSizeZeroNext, false
 	if populate != nil {
 		populate(env.FS)
 		env.FS.TakeLog()
@@ -144,7 +173,8 @@ func (s *Session) Do(advNs int64, c nfsx.Cred, r *nfsx.Req) *Step {
 	}
 	o := s.Env.Do(c, r)
 	s.Env.FS.AfterOp = nil
-	st := &Step{Crash: crash, AdvNs: advNs, Cred: c, Req: r, Obs: o, Calls: s.Env.FS.TakeLog(), NH: s.Env.NFS.VerifFileMap().Count(), Dump: s.Env.FS.Dump(false)}
+	// the model and the oracles are given the identity the server must act under (after squashing)
+	st := &Step{Crash: crash, AdvNs: advNs, Cred: s.Cfg.Effective(c), Req: r, Obs: o, Calls: s.Env.FS.TakeLog(), NH: s.Env.NFS.VerifFileMap().Count(), Dump: s.Env.FS.Dump(false)}
 	if s.Twin != nil {
 		absnfs.VerifAdvanceClock(2)
 		s.twinLag = 2
